@@ -841,6 +841,11 @@ class VectorStarSet(object):
                             Nvect = 0
                             continue
                         if (abs(g00 - 1) > threshold) or (abs(g11 - 1) > threshold):
+                            if g00 * g11 - g01 * g10 > 0:
+                                # symmetric with determinant +1 but not the identity: a two-fold rotation about vpara,
+                                # which reverses every perpendicular vector, so nothing survives
+                                Nvect = 0
+                                continue
                             # if we don't have the identify matrix, then we have to find the one vector that survives
                             if abs(g00 - 1) < threshold:
                                 Nvect = 1
